@@ -143,6 +143,16 @@ struct Report {
     if (frozen) return;
     if (notes.size() < 20) notes.push_back(n);
   }
+  /// Describe the class of the current case for crash triage: printed to
+  /// stderr (replay front end only) so that a sanitizer abort can be matched
+  /// against a known finding by case class, not only by call site.
+  bool printTags = std::getenv("VERIF_PRINT_TAGS") != nullptr;
+  void tag(const std::string &t) {
+    if (printTags) {
+      std::fprintf(stderr, "CASE-TAG: %s\n", t.c_str());
+      std::fflush(stderr);
+    }
+  }
   /// Record a failure; returns false so that `return R.fail(...)` reads well.
   bool fail(const std::string &reason) {
     failReason = reason;
